@@ -72,7 +72,7 @@ def generate(rng, n, tier):
         if cls == "clickhouse" and rng.random() < 0.5 and kind == "select":
             extra = ["limit_by", rng.choice([0, 1, 3]), rng.choice([0, 0, 2])]
         yield {"cls": cls, "kind": kind, "calls": calls, "orderby": rng.random() < 0.7,
-               "for_update": rng.random() < 0.3 and kind == "select", "extra": extra}
+               "for_update": rng.random() < 0.3 and kind == "select", "extra": extra, "upd_shape": rng.randrange(4)}
 
 
 def build_src(case, paginate=True):
@@ -83,7 +83,10 @@ def build_src(case, paginate=True):
     elif kind == "setop":
         s = "%s.from_(T('t')).select(T('t').a).union_all(%s.from_(T('u')).select(T('u').a))" % (qn, qn)
     else:
-        s = "%s.update(T('t')).set(T('t').a, 1)" % qn
+        # UPDATE with a row limit: plain, with a join, with a further source, with a filter — the limit belongs to the statement
+        shape = case.get("upd_shape", 0)
+        s = "%s.update(T('t'))" % qn + ["", ".join(T('u')).on(T('t').k == T('u').k)", ".from_(T('u'))", ""][shape % 4] + \
+            ".set(T('t').a, 1)" + (".where(T('t').b > 2)" if shape >= 2 else "")
     tail = ""
     if case.get("orderby") and kind != "update":
         tail += ".orderby(T('t').a)" if kind == "select" else ".orderby('a')"
@@ -164,7 +167,7 @@ def examine(case):
     text = str(obj)
     lim, off = expected_state(case)
     res.nontrivial = lim is not None or off is not None
-    res.key = struct_hash([cls, case["kind"], case["calls"], case.get("extra"), case.get("orderby"), case.get("for_update")])
+    res.key = struct_hash([cls, case["kind"], case["calls"], case.get("extra"), case.get("orderby"), case.get("for_update"), case.get("upd_shape")])
     res.tags = ["cls=" + cls, "kind=" + case["kind"], "lim=%s" % ("none" if lim is None else "0" if lim == 0 else "+"),
                 "off=%s" % ("none" if off is None else "0" if off == 0 else "+")]
     try:
